@@ -321,7 +321,13 @@ static void ProcessFile(char const* FileName, LongWord Offset) {
 
                 /* the addresses actually written decide about overflow and record type */
 
-                if (ErgStop > MaxAdr) {
+                /* (the Intel formats write byte addresses: address units times granularity) */
+
+                if ((ErgStop > MaxAdr)
+                    || (((ActFormat == eHexFormatIntel) || (ActFormat == eHexFormatIntel16)
+                         || (ActFormat == eHexFormatIntel32))
+                        && (MultiMode < 2)
+                        && (((LargeWord)ErgStop * Gran) + (Gran - 1) > MaxAdr))) {
                     errno = 0;
                     fprintf(stderr, " %s\n", getmessage(Num_ErrMsgAdrOverflow));
                     ChkIO(OutName);
@@ -435,7 +441,7 @@ static void ProcessFile(char const* FileName, LongWord Offset) {
 
                     if ((ActFormat == eHexFormatIntel32) && (FirstBank)) {
                         IntOffset += (0x10000 / Gran);
-                        HSeg   = IntOffset >> 16;
+                        HSeg   = (IntOffset * Gran) >> 16;
                         ChkSum = 6 + Lo(HSeg) + Hi(HSeg);
                         errno  = 0;
                         fprintf(TargFile, ":02000004%04X%02X\n", LoWord(HSeg),
@@ -462,9 +468,11 @@ static void ProcessFile(char const* FileName, LongWord Offset) {
                             TransLen = min((LongWord)Gran, ErgLen);
                         }
                     }
+                    /* (a bank holds 64K byte addresses, i.e. 64K / Gran address units) */
+
                     if ((ActFormat == eHexFormatIntel32)
-                        && ((ErgStart & 0xffff) + (TransLen / Gran) >= 0x10000)) {
-                        TransLen  = Gran * (0x10000 - (ErgStart & 0xffff));
+                        && (((ErgStart - IntOffset) * Gran) + TransLen >= 0x10000)) {
+                        TransLen  = 0x10000 - ((ErgStart - IntOffset) * Gran);
                         FirstBank = True;
                     } else if (ActFormat == eHexFormatAtmel) {
                         TransLen = min(2, TransLen);
